@@ -2,14 +2,17 @@
 # seed_matrix.sh [ids...] : for every seeded change, apply it to /repo, rebuild the harness, run the quick check of its
 # own property (plus the related ones named in RELATED), record the verdicts in seeded/<id>/check.json, undo the change.
 # Never leaves /repo modified; rebuilds the harness from the clean tree at the end.
-cd /verif
+# SEED_VERIF / SEED_REPO select an isolated copy of /verif and a scratch worktree of /repo (so that other runs are
+# not disturbed); the verdicts are always written to /verif/seeded/<id>/check.json.
+V=${SEED_VERIF:-/verif}; R=${SEED_REPO:-/repo}
+cd $V
 declare -A RELATED=( [C01]="C19" [C15]="C09" [C07]="C08" [C08]="C07 C11" [C11]="C08" [C09]="C15" )
-ids=("$@"); [ ${#ids[@]} -eq 0 ] && ids=($(ls seeded))
+ids=("$@"); [ ${#ids[@]} -eq 0 ] && ids=($(ls /verif/seeded))
 for sd in "${ids[@]}"; do
-  d=seeded/$sd; prop=${sd%-*}
+  d=/verif/seeded/$sd; prop=${sd%-*}; prop=${prop%r}
   [ -f "$d/patch.diff" ] || continue
-  (cd /repo && git apply "/verif/$d/patch.diff") || { echo "$sd: patch does not apply"; continue; }
-  (cd harness && CARGO_NET_OFFLINE=true cargo build --offline >/dev/null 2>&1) || { echo "$sd: harness build failed"; git -C /repo checkout -- .; continue; }
+  (cd $R && git apply "$d/patch.diff") || { echo "$sd: patch does not apply"; continue; }
+  (cd harness && CARGO_NET_OFFLINE=true cargo build --offline >/dev/null 2>&1) || { echo "$sd: harness build failed"; git -C $R checkout -- .; continue; }
   res="{"; first=1
   for id in $prop ${RELATED[$prop]}; do
     out=$(./bin/check $id --tier quick --no-build 2>&1)
@@ -21,7 +24,7 @@ for sd in "${ids[@]}"; do
     [ "$v" = "VIOLATION" ] && [ "$id" = "$prop" ] && break
   done
   res="$res}"
-  echo "{\"repo_head\": \"$(git -C /repo rev-parse --short HEAD)\", \"quick_checks\": $res}" > $d/check.json
-  git -C /repo checkout -- .
+  echo "{\"repo_head\": \"$(git -C $R rev-parse --short HEAD)\", \"quick_checks\": $res}" > $d/check.json
+  git -C $R checkout -- .
 done
 (cd harness && CARGO_NET_OFFLINE=true cargo build --offline 2>&1 | tail -1)
